@@ -27,6 +27,9 @@ R3 (K5) the new parent list is [new tip] + reversed(pending_merges); pending_mer
 R4 (K2/K10) tags: remove_tags is called only when the branch supports tags and keep_tags is false, with
    (branch, graph, old_tip, parents); in src/uncommit.rs a tag is deleted only after the `!ancestors.contains(&revid)`
    guard continued past it, and `ancestors` is find_unique_ancestors(old_tip, parents).
+R5 (K3 lock discipline) when some delete_tag implementation propagates to the master through get_master_branch() (a fresh
+   object taking its own write lock), uncommit() has released its own write lock on the master on every path before it
+   calls remove_tags.
 Does not decide: that the reconstructed pending merges equal the pre-commit ones for arbitrary histories.
 """
 
@@ -131,8 +134,31 @@ def run(ctx):
     ok = bool(guard_idx) and bool(del_idx) and min(del_idx) > min(guard_idx) and "delete_tag" not in body[:k] and "delete_tag" not in body[c:]
     ctx.check("R4-rust-guard", wr, ok, "delete_tag is reached only after the `!ancestors.contains(&revid) -> continue` guard", construct="; ".join(s[:50] for s in st), message="a tag can be deleted although its revision is not among the removed revisions")
 
+    # ---- R5: the master's write lock is not held while tags are removed ------------------------------------------
+    # remove_tags (src/uncommit.rs) calls tags.delete_tag; a delete_tag implementation that propagates to the master
+    # opens a *fresh* master branch object (get_master_branch) and write-locks it — a second physical lock on the lock
+    # directory uncommit() already holds through its own `master` object, i.e. LockContention after the tip has moved.
+    reaches_master = []
+    if "delete_tag" in body:
+        for rel_ in repo.python_files():
+            if not rel_.startswith("breezy/") or "/tests/" in rel_ or "def delete_tag" not in repo.text(rel_):
+                continue
+            for q_, f_ in repo.module(rel_).functions().items():
+                if q_.endswith(".delete_tag") and any(call_attr(c) == "get_master_branch" for c in calls_in(f_)):
+                    reaches_master.append(f"{rel_}:{q_}")
+    if reaches_master:
+        g5 = g.assume({"master is not None": True, "master is None": False}).without_exc_edges()
+        lk = need(where, calling(g5, attr="lock_write", recv="master"), "master.lock_write()")
+        ul = calling(g5, attr="unlock", recv="master")
+        rt5 = [i for i in rt if i in {n.id for n in g5.nodes}]
+        hit = sorted(set(rt5) & g5.reach(lk, avoid=set(ul)))
+        w5 = g5.path(lk, hit, avoid=set(ul)) if hit else None
+        ctx.check("R5-master-unlocked-for-tags", where, not hit, f"master.unlock() lies on every path from master.lock_write() to remove_tags ({reaches_master[0]} locks the master itself)", construct="remove_tags(...) with the master still write-locked", message=f"uncommit() still holds its write lock on the master when it calls remove_tags; {reaches_master[0]} opens the master again and takes its own write lock, which contends with ours: uncommitting a tagged revision in a bound branch dies with LockContention after the tip was moved and the tags stay", witness=g5.show_path(w5) if w5 else None)
+    else:
+        ctx.info("R5-master-unlocked-for-tags", where, "no delete_tag implementation reaches the master branch; rule vacuous on this tree")
 
 MUTANTS = [
+    Mutant("master stays locked while tags are removed", UC, "                    unlockable.remove(master)\n                    master.unlock()\n", "                    pass\n", expect="R5-master-unlocked-for-tags"),
     Mutant("uncommit reverts the tree", UC, "            if tree is not None:\n                parents.extend(reversed(pending_merges))\n                tree.set_parent_ids(parents)\n", "            if tree is not None:\n                parents.extend(reversed(pending_merges))\n                tree.set_parent_ids(parents)\n                tree.revert()\n", expect="R1-tree-effects"),
     Mutant("master/local order swapped", UC, "            if master is not None:\n                master.set_last_revision_info(new_revno, new_revision_id)\n            branch.set_last_revision_info(new_revno, new_revision_id)\n", "            branch.set_last_revision_info(new_revno, new_revision_id)\n            if master is not None:\n                master.set_last_revision_info(new_revno, new_revision_id)\n", expect="R2-master-first"),
     Mutant("tags removed during a dry run", UC, "            if branch.supports_tags() and not keep_tags:\n                remove_tags(branch, graph, old_tip, parents)\n    finally:", "        if branch.supports_tags() and not keep_tags:\n            remove_tags(branch, graph, old_tip, parents)\n    finally:", expect="ANALYSIS-ERROR", note="parents undefined on dry-run path: still parses; rule fires as violation"),
